@@ -47,6 +47,11 @@ SumDim(S, f, i) == IF S = {} THEN 0
 DimOf(f) == [i \in Fund |-> SumDim(Support(f), f, i)]
 
 Declared == {decl[i] : i \in 1..Len(decl)}
+\* A later declaration for the same pair of units replaces the earlier one (conversions.equate stores one ratio
+\* per pair): the equivalences in force are the LAST declaration of every pair.
+SamePair(c, d) == c.l = d.l /\ c.r = d.r
+EffOf(seq) == {seq[k] : k \in {x \in 1..Len(seq) : ~\E j \in (x + 1)..Len(seq) : SamePair(Cands[seq[x]], Cands[seq[j]])}}
+Effective == EffOf(decl)
 
 (* ---- solving sizes from declarations ---- *)
 RECURSIVE SumSize(_, _, _)
@@ -78,21 +83,24 @@ Solve(size, pending) ==
                         IN IF c.r[x] = 1 THEN num ELSE Neg(num)
           IN Solve(size @@ (x :> v), pending \ {i})
 
-SizesFrom(roots) == Solve([r \in roots |-> PV0], Declared)
+SizesFrom(roots) == Solve([r \in roots |-> PV0], Effective)
 Sizes == SizesFrom(Roots)
 Sized(u, size) == Support(u.f) \subseteq DOMAIN size
 USize(u, size) == Add(Ten(u.p), BagSize(u.f, size))
 
 \* every declaration agrees with the solved sizes (the synthetic system is exactly consistent)
 Consistent == ev.op \in {"declare", "init"} => LET size == Sizes IN
-  \A i \in Declared : LET c == Cands[i] IN
+  \A i \in Effective : LET c == Cands[i] IN
      (Mentioned(c) \subseteq DOMAIN size) => size[c.l] = Rhs(c, size)
+\* (for guards: a set of equivalences in force that do not contradict each other)
+ConsistentSet(eff) == LET size == Solve([r \in Roots |-> PV0], eff) IN
+  \A i \in eff : LET c == Cands[i] IN (Mentioned(c) \subseteq DOMAIN size) => size[c.l] = Rhs(c, size)
 
 (* ---- node-level connectivity (single base units, plain declarations l = k * r') ---- *)
 IsNodeDecl(c) == Cardinality(Support(c.r)) = 1 /\ \E b \in Base : c.r[b] = 1
 Other(c) == CHOOSE b \in Base : c.r[b] = 1
-Adj(n) == {Other(Cands[i]) : i \in {j \in Declared : Cands[j].l = n /\ IsNodeDecl(Cands[j])}}
-          \cup {Cands[i].l : i \in {j \in Declared : IsNodeDecl(Cands[j]) /\ Other(Cands[j]) = n}}
+Adj(n) == {Other(Cands[i]) : i \in {j \in Effective : Cands[j].l = n /\ IsNodeDecl(Cands[j])}}
+          \cup {Cands[i].l : i \in {j \in Effective : IsNodeDecl(Cands[j]) /\ Other(Cands[j]) = n}}
 RECURSIVE Reach(_, _)
 Reach(front, done) == LET nxt == (UNION {Adj(n) : n \in front}) \ (done \cup front)
                       IN IF nxt = {} THEN done \cup front ELSE Reach(nxt, done \cup front)
@@ -139,12 +147,14 @@ Init == decl = <<>> /\ hist = <<>> /\ ev = Ev("init", 0, U(0, ZeroBag), U(0, Zer
 C07_Class == ev.op \in {"query", "compare"} => ev.out \in {"ok", "CNF"}
 C04_Value == ev.op \in {"query", "compare"} /\ ev.out = "ok" /\ ev.u # ev.v =>
                ev.pv = NodeRatio(CHOOSE b \in Base : ev.u.f[b] = 1, CHOOSE b \in Base : ev.v.f[b] = 1)
+\* the equivalences in force after the first k events of the history
+DeclIdx(k) == LET s == SelectSeq(SubSeq(hist, 1, k), LAMBDA e : e.op = "declare") IN [x \in 1..Len(s) |-> s[x].i]
+EffAt(k) == EffOf(DeclIdx(k))
 \* C08 on the model: a query's outcome is F(decl, u, v) - whatever happened before it
 C08_Function == \A k \in 1..Len(hist) : hist[k].op \in {"query", "compare"} =>
                   \A j \in 1..Len(hist) :
                      (hist[j].op = hist[k].op /\ hist[j].u = hist[k].u /\ hist[j].v = hist[k].v
-                      /\ {hist[x].i : x \in {y \in 1..j : hist[y].op = "declare"}}
-                           = {hist[x].i : x \in {y \in 1..k : hist[y].op = "declare"}})
+                      /\ EffAt(j) = EffAt(k))
                      => hist[j].out = hist[k].out /\ hist[j].pv = hist[k].pv
 \* C05 theorems of the size model: there-and-back and via-intermediate
 \* (they depend on decl only, so they are evaluated in the states that follow a declaration)
